@@ -252,8 +252,29 @@ pub fn pattern_text(sh: Shape, m: usize, text_max: usize) -> BoxedStrategy<(Vec<
         proptest::collection::vec((0..sigma).prop_map(|c| b'a' + c), 1..=2),
         proptest::collection::vec(any::<u16>(), 0..=2),
         0u8..24,
+        (0u8..12, any::<u16>()),
     )
-        .prop_map(move |(p, l, r, ed, plant, amb_eq, wild_pos, short)| {
+        .prop_map(move |(p, l, r, ed, plant, amb_eq, wild_pos, short, (tshape, tfrac))| {
+            // text shapes beyond "flank + noisy copy + flank": flanks over a disjoint alphabet, a text
+            // that is entirely foreign to the pattern, a pattern suffix at the very start of the text,
+            // a pattern prefix at its very end
+            let alien = |v: &[u8]| -> Vec<u8> { v.iter().map(|c| b'w' + (c - b'a') % 4).collect() };
+            let concrete_p: Vec<u8> = p.iter().map(|&c| if c == b'n' { amb_eq[0] } else { c }).collect();
+            let (l, r, plant) = match tshape {
+                8 => (alien(&l), alien(&r), plant),
+                9 => (alien(&l), alien(&r), false),
+                10 => {
+                    let j = crate::engine::gen::idx(tfrac, concrete_p.len() - 1);
+                    (concrete_p[j..].to_vec(), r, false)
+                }
+                11 => {
+                    let j = crate::engine::gen::idx(tfrac, concrete_p.len() - 1);
+                    let mut rr = concrete_p[..=j].to_vec();
+                    rr.truncate(text_max / 2);
+                    (l, rr, false)
+                }
+                _ => (l, r, plant),
+            };
             let mut t = l;
             if plant {
                 // noisy copy of the pattern (ambiguity symbols replaced by one of their equivalents)
@@ -473,6 +494,224 @@ fn strat_dist(_t: Tier) -> BoxedStrategy<DistCase> {
         .boxed()
 }
 
+
+// ---------------------------------------------------------------------------
+// large scale: distances on inputs across the size ladder (narrow lane counters, block limits) and
+// block-based Myers with patterns of 255..8193 symbols (dozens to thousands of blocks)
+
+pub mod large {
+    use super::*;
+    use crate::oracles::prng::{ladder_label, Sm, LADDER};
+
+    #[derive(Serialize, Deserialize, Debug, Clone)]
+    pub struct DistCase {
+        pub n: usize,
+        /// 0: b = a with a substitution at every `period`-th position; 1: disjoint alphabets (all positions differ);
+        /// 2: identical; 3: independent random bytes; 4: b = a + a tail of `extra` symbols
+        pub kind: u8,
+        pub period: u32,
+        pub extra: u32,
+        pub seed: u64,
+        /// bound for bounded_levenshtein relative to the true distance: d + delta - 2 (clamped at 0)
+        pub delta: u8,
+    }
+
+    fn lev_two_rows(a: &[u8], b: &[u8]) -> u32 {
+        let mut prev: Vec<u32> = (0..=b.len() as u32).collect();
+        let mut cur = vec![0u32; b.len() + 1];
+        for i in 1..=a.len() {
+            cur[0] = i as u32;
+            for j in 1..=b.len() {
+                cur[j] = (prev[j - 1] + (a[i - 1] != b[j - 1]) as u32).min(prev[j] + 1).min(cur[j - 1] + 1);
+            }
+            std::mem::swap(&mut prev, &mut cur);
+        }
+        prev[b.len()]
+    }
+
+    pub fn check_dist(c: &DistCase) -> R {
+        ensure!(c.n <= 140_000 && c.period >= 1 && c.extra <= 300, "harness: case outside the large-distance domain");
+        let mut g = Sm::new(c.seed);
+        let a: Vec<u8> = match c.kind {
+            1 => (0..c.n).map(|_| b"AC"[g.below(2) as usize]).collect(),
+            3 => g.bytes(c.n, 256, 0),
+            _ => (0..c.n).map(|_| b"ACGT"[g.below(4) as usize]).collect(),
+        };
+        let b: Vec<u8> = match c.kind {
+            0 => a.iter().enumerate().map(|(i, &x)| if i as u32 % c.period == c.period - 1 { match x { b'A' => b'C', b'C' => b'G', b'G' => b'T', _ => b'A' } } else { x }).collect(),
+            1 => (0..c.n).map(|_| b"GT"[g.below(2) as usize]).collect(),
+            2 => a.clone(),
+            3 => g.bytes(c.n, 256, 0),
+            _ => {
+                let mut v = a.clone();
+                v.extend((0..c.extra).map(|_| b"ACGT"[g.below(4) as usize]));
+                v
+            }
+        };
+        let desc = || format!("n={} kind={} period={} extra={} seed={}", c.n, c.kind, c.period, c.extra, c.seed);
+        let mut pass = Pass::new(c.n >= 256);
+        if a.len() == b.len() {
+            let h = a.iter().zip(b.iter()).filter(|(x, y)| x != y).count() as u64;
+            let got = distance::hamming(&a, &b);
+            ensure!(got == h, "hamming ({}) = {}, the number of differing positions is {}", desc(), got, h);
+            let got = distance::simd::hamming(&a, &b);
+            ensure!(got == h, "simd::hamming ({}) = {}, the number of differing positions is {}", desc(), got, h);
+            pass.add("hamming checked");
+            pass.add_if(h >= 256, "256 or more mismatches");
+            pass.add_if(h as usize == c.n && c.n >= 8192, "all positions differ, n >= 8192");
+            pass.add_if(c.kind == 0 && c.period == 32 && c.n >= 8192, "every 32nd position differs, n >= 8192");
+        }
+        // Levenshtein: exact DP when affordable, analytic value for the structured kinds otherwise
+        let lev: Option<u32> = if a.len() <= 2100 {
+            Some(lev_two_rows(&a, &b))
+        } else {
+            match c.kind {
+                2 => Some(0),
+                4 => Some(c.extra),
+                1 if c.n <= 4200 => Some(c.n as u32), // disjoint alphabets, equal lengths
+                _ => None,
+            }
+        };
+        if let Some(d) = lev {
+            let got = distance::levenshtein(&a, &b);
+            ensure!(got == d, "levenshtein ({}) = {}, expected {}", desc(), got, d);
+            let got = distance::simd::levenshtein(&a, &b);
+            ensure!(got == d, "simd::levenshtein ({}) = {}, expected {}", desc(), got, d);
+            let k = (d + c.delta as u32).saturating_sub(2);
+            let got = distance::simd::bounded_levenshtein(&a, &b, k);
+            let exp = if d <= k { Some(d) } else { None };
+            ensure!(got == exp, "simd::bounded_levenshtein ({}, bound {}) = {:?}, expected {:?}", desc(), k, got, exp);
+            pass.add("levenshtein checked");
+            pass.add_if(d >= 256, "levenshtein distance >= 256");
+        }
+        if let Some(l) = ladder_label(c.n) {
+            pass.add(l);
+        }
+        Ok(pass)
+    }
+
+    pub fn strat_dist(_t: Tier) -> BoxedStrategy<DistCase> {
+        let n = prop_oneof![6 => proptest::sample::select(LADDER.to_vec()), 2 => 258usize..=2100, 1 => 2100usize..=20_000];
+        (n, 0u8..=4, prop_oneof![1 => Just(1u32), 1 => Just(2), 1 => Just(31), 5 => Just(32), 1 => Just(33), 1 => Just(64), 1 => Just(255), 1 => Just(256), 1 => Just(257), 2 => 3u32..=300], 0u32..=300, any::<u64>(), 0u8..=4)
+            .prop_map(|(n, kind, period, extra, seed, delta)| DistCase { n, kind, period, extra, seed, delta })
+            .boxed()
+    }
+
+    #[derive(Serialize, Deserialize, Debug, Clone)]
+    pub struct MyersLarge {
+        pub m: usize,
+        pub width: u8,
+        /// 0 random ACGT, 1 periodic (unit 1..5), 2 homopolymer with a distinct last symbol
+        pub kind: u8,
+        pub seed: u64,
+        pub k: u32,
+        /// number of planted copies and number of edits applied to each
+        pub copies: u8,
+        pub edits: u16,
+        /// flank length in symbols
+        pub flank: u16,
+    }
+
+    fn build(c: &MyersLarge) -> (Vec<u8>, Vec<u8>) {
+        let mut g = Sm::new(c.seed);
+        let p: Vec<u8> = match c.kind {
+            0 => (0..c.m).map(|_| b"ACGT"[g.below(4) as usize]).collect(),
+            1 => {
+                let u = 1 + g.below(5) as usize;
+                let unit: Vec<u8> = (0..u).map(|_| b"ACGT"[g.below(4) as usize]).collect();
+                unit.iter().cycle().take(c.m).cloned().collect()
+            }
+            _ => {
+                let mut v = vec![b'A'; c.m];
+                v[c.m - 1] = b'C';
+                v
+            }
+        };
+        let mut t: Vec<u8> = (0..c.flank).map(|_| b"ACGT"[g.below(4) as usize]).collect();
+        for _ in 0..c.copies {
+            let mut copy = p.clone();
+            for _ in 0..c.edits {
+                if copy.is_empty() {
+                    break;
+                }
+                let i = g.below(copy.len() as u64) as usize;
+                match g.below(3) {
+                    0 => copy[i] = b"ACGT"[g.below(4) as usize],
+                    1 => copy.insert(i, b"ACGT"[g.below(4) as usize]),
+                    _ => {
+                        copy.remove(i);
+                    }
+                }
+            }
+            t.extend(copy);
+            t.extend((0..c.flank).map(|_| b"ACGT"[g.below(4) as usize]));
+        }
+        (p, t)
+    }
+
+    /// last DP row of the semi-global alignment, streaming over the text (O(m) memory)
+    fn last_row(p: &[u8], t: &[u8]) -> Vec<u32> {
+        let m = p.len();
+        let mut col: Vec<u32> = (0..=m as u32).collect();
+        let mut out = Vec::with_capacity(t.len());
+        for &tc in t {
+            let mut diag = col[0];
+            col[0] = 0;
+            for i in 1..=m {
+                let up_left = diag;
+                diag = col[i];
+                col[i] = (up_left + (p[i - 1] != tc) as u32).min(col[i] + 1).min(col[i - 1] + 1);
+            }
+            out.push(col[m]);
+        }
+        out
+    }
+
+    fn run_long<T: BitVec>(p: &[u8], t: &[u8], k: usize) -> (Vec<(usize, usize)>, usize, (usize, usize)) {
+        let my = long::Myers::<T>::new(p.iter());
+        let hits: Vec<(usize, usize)> = my.find_all_end(t.iter(), k).take(t.len() + 1).collect();
+        let d = my.distance(t.iter());
+        let b = my.find_best_end(t.iter());
+        (hits, d, b)
+    }
+
+    pub fn check_myers_large(c: &MyersLarge) -> R {
+        ensure!(c.m >= 1 && c.m <= 9000 && c.copies >= 1 && c.copies <= 3 && c.flank >= 1, "harness: case outside the large-Myers domain");
+        let (p, t) = build(c);
+        let row = last_row(&p, &t);
+        let k = c.k as usize;
+        let exp: Vec<(usize, usize)> = row.iter().enumerate().filter(|(_, d)| **d as usize <= k).map(|(j, d)| (j, *d as usize)).collect();
+        let best = row.iter().enumerate().min_by_key(|(j, d)| (**d, *j)).map(|(j, d)| (j, *d as usize)).unwrap();
+        let (hits, d, b) = match c.width {
+            8 => run_long::<u8>(&p, &t, k),
+            16 => run_long::<u16>(&p, &t, k),
+            32 => run_long::<u32>(&p, &t, k),
+            _ => run_long::<u64>(&p, &t, k),
+        };
+        let desc = || format!("long::Myers<u{}> pattern length {} (kind {}, seed {}), text length {}, k={}", c.width, c.m, c.kind, c.seed, t.len(), k);
+        ensure!(hits == exp, "{}: find_all_end yields {} hits {:?}.., the DP has {} hits {:?}..", desc(), hits.len(), &hits[..hits.len().min(5)], exp.len(), &exp[..exp.len().min(5)]);
+        ensure!(d == best.1, "{}: distance() = {}, expected {}", desc(), d, best.1);
+        ensure!(b == best, "{}: find_best_end() = {:?}, expected {:?}", desc(), b, best);
+        let mut pass = Pass::new(!exp.is_empty());
+        if let Some(l) = ladder_label(c.m) {
+            pass.add(l);
+        }
+        pass.add_if(c.m / (c.width as usize) >= 32, "32 or more blocks");
+        pass.add_if(c.m / (c.width as usize) >= 256, "256 or more blocks");
+        pass.add_if((255..=257).contains(&k), "k in 255..257");
+        pass.add_if(exp.iter().any(|(_, d)| *d > 0), "inexact hit");
+        pass.add_if(exp.is_empty(), "no hit");
+        Ok(pass)
+    }
+
+    pub fn strat_myers(_t: Tier) -> BoxedStrategy<MyersLarge> {
+        let m = prop_oneof![5 => proptest::sample::select(vec![255usize, 256, 257, 511, 512, 513, 1023, 1024, 1025, 2047, 2048, 2049, 4095, 4096, 4097]), 1 => proptest::sample::select(vec![8191usize, 8192, 8193]), 2 => 258usize..=1500];
+        (m, super::width(), 0u8..=2, any::<u64>(), prop_oneof![3 => 0u32..=12, 2 => 12u32..=80, 1 => 255u32..=257], 1u8..=3, 0u16..=40, prop_oneof![Just(1u16), 1u16..=300])
+            .prop_map(|(m, width, kind, seed, k, copies, edits, flank)| MyersLarge { m, width, kind, seed, k, copies, edits, flank })
+            .boxed()
+    }
+}
+
 pub fn property() -> Property {
     Property {
         id: "C09",
@@ -480,6 +719,8 @@ pub fn property() -> Property {
         assumptions: &["k <= 255 for the single-word version (u8 distance type)", "hamming only for equal lengths (documented assertion)", "distance()/find_best_end() are only asked for non-empty texts"],
         subs: vec![
             Box::new(PropSub { name: "C09/myers", quick: 320_000, thorough: 4_000_000, shards_quick: 16, shards_thorough: 16, strat: strat_myers, check: check_myers, must_reach: &["multi-block pattern", "|p| = word width", "|p| multiple of the width", "|p| = width*b+1", "k >= |p|", "ambiguity/wildcard used", "hit with 0<d<=k", "single-word version run", "k near usize::MAX", "u8", "u16", "u32", "u64"], watch: true }),
+            Box::new(PropSub { name: "C09/large-distance", quick: 800, thorough: 40_000, shards_quick: 16, shards_thorough: 16, strat: large::strat_dist, check: large::check_dist, must_reach: &["size in 255..257", "size in 8191..8193", "size in 65535..65537", "size in 131071..131073", "all positions differ, n >= 8192", "every 32nd position differs, n >= 8192", "levenshtein distance >= 256", "hamming checked"], watch: true }),
+            Box::new(PropSub { name: "C09/large-myers", quick: 320, thorough: 16_000, shards_quick: 16, shards_thorough: 16, strat: large::strat_myers, check: large::check_myers_large, must_reach: &["size in 255..257", "size in 511..513", "size in 1023..1025", "size in 4095..4097", "size in 8191..8193", "256 or more blocks", "k in 255..257", "inexact hit"], watch: true }),
             Box::new(PropSub { name: "C09/ukkonen", quick: 160_000, thorough: 2_000_000, shards_quick: 8, shards_thorough: 16, strat: strat_ukkonen, check: check_ukkonen, must_reach: &["cost table", "object reused", "hit with d>0", "k >= |p|"], watch: true }),
             Box::new(PropSub { name: "C09/distance", quick: 160_000, thorough: 2_000_000, shards_quick: 8, shards_thorough: 16, strat: strat_dist, check: check_dist, must_reach: &["equal lengths (hamming checked)", "distance exceeds the bound", "distance equals the bound", "length >= 32 (SIMD lanes)", "empty operand"], watch: true }),
         ],
